@@ -216,6 +216,11 @@ structure StepOut where
 def recs (ms : List Micro) : List WalEntry :=
   ms.filterMap fun | .wal r => some r | _ => none
 
+/-- "if the message carries a higher term: persist_term_and_vote(term, None), adopt it" -/
+def preHigher (n : Node) (t : Nat) (r : Role) : List Micro × Node :=
+  if t > n.term then ([.wal (.termAndVote t none)], { n with term := t, votedFor := none, role := r })
+  else ([], n)
+
 /-- one handler call: WAL records first, then the acknowledgements it sends -/
 def step (n : Node) : Event → StepOut
   | .startElection =>
@@ -224,8 +229,8 @@ def step (n : Node) : Event → StepOut
       node := { n with term := t, votedFor := some n.id, role := .candidate },
       reply := .none }
   | .requestVote t cand li lt =>
-    let m1 : List Micro := if t > n.term then [.wal (.termAndVote t none)] else []
-    let n1 : Node := if t > n.term then { n with term := t, votedFor := none, role := .follower } else n
+    let m1 : List Micro := (preHigher n t .follower).1
+    let n1 : Node := (preHigher n t .follower).2
     if t = n1.term then
       let lli := (lastLogInfo n1.log).1
       let llt := (lastLogInfo n1.log).2
@@ -247,8 +252,8 @@ def step (n : Node) : Event → StepOut
     else { micros := [], node := n, reply := .none }
   | .becomeLeader => { micros := [], node := { n with role := .leader }, reply := .none }
   | .appendEntries t _leader prevIdx prevTerm ents =>
-    let m1 : List Micro := if t > n.term then [.wal (.termAndVote t none)] else []
-    let n1 : Node := if t > n.term then { n with term := t, votedFor := none, role := .follower } else n
+    let m1 : List Micro := (preHigher n t .follower).1
+    let n1 : Node := (preHigher n t .follower).2
     if t = n1.term then
       if logOk n1.log prevIdx prevTerm then
         let r := appendLoop n1.log (mkEntries prevIdx ents)
@@ -271,8 +276,8 @@ def step (n : Node) : Event → StepOut
     else { micros := [], node := n, reply := .notLeader }
   | .installSnapshot _lastIdx lastTerm ents =>
     -- install_snapshot_entries (validation of hash / last entry done by the caller)
-    let m1 : List Micro := if lastTerm > n.term then [.wal (.termAndVote lastTerm none)] else []
-    let n1 : Node := if lastTerm > n.term then { n with term := lastTerm, votedFor := none } else n
+    let m1 : List Micro := (preHigher n lastTerm n.role).1
+    let n1 : Node := (preHigher n lastTerm n.role).2
     { micros := m1 ++ [.ackTerm n1.term], node := { n1 with log := mkEntries 0 ents }, reply := .snapshot true }
 
 /-! ### obligations (ghost state) and executions with crashes -/
